@@ -38,7 +38,7 @@ def ob_kmsigned(chk, ir):
     if name not in ir.funcs: chk.obligation('keymaster-cert-branch', '-', 'inconclusive', 'ANCHOR-LOST ' + name); return
     XT = ir.typeid('crypto/x509.Certificate'); PN = ir.typeid('crypto/x509/pkix.Name')
     S = z3.StringSort(); FP = z3.Function('fingerprint', S, S)
-    verdict = 'holds'; total = 0; nacc = 0
+    verdict = 'holds'; total = 0; nacc = 0; done = set()
     for shape in ([1], [2], [3], [1, 2], [2, 2]):
         for nkeys in (0, 1, 2):
             for ndeny in (0, 1):
@@ -53,6 +53,16 @@ def ob_kmsigned(chk, ir):
                     ident = z3.String('key:' + (getattr(inner, 'what', None) or repr(inner)))
                     return (FP(ident), nilerr())
                 H.stub(f'{M}.getKeyFingerprint', fp)
+                # an IP-restricted (automation) certificate is signed by the same key: whether a leaf carries the RFC 3779 address
+                # restriction is a symbolic fact per chain, observable by the code only through the extension list / OID comparison
+                def oid_equal(ex_, s, a, ins):
+                    cell = s.heap.get(a[0].obj) if isinstance(a[0], SliceV) and a[0].obj is not None else None
+                    nm = getattr(cell, 'name', '') if cell is not None else ''
+                    m_ = re.search(r'chain(\d+)cert0\.Extensions', nm or '')
+                    if m_: return z3.Bool(f'chain{m_.group(1)}.leaf.addressRestricted')
+                    s.counter += 1; return z3.Bool(f'oid.equal!{s.counter}')
+                H.stub('(encoding/asn1.ObjectIdentifier).Equal', oid_equal)
+                H.add_hints(lens(r'cert0\.Extensions\)$', [0, 1]), lens(r'Extensions\[\d\]\.Id\)$', [9]))
                 H.add_hints(lens(r'KeymasterPublicKeys\)$', [nkeys]), lens(r'KeyDenyFPsshSha256\)$', [ndeny]),
                             (re.compile(r'(PublicKey|KeymasterPublicKeys\[\d\])$'), lambda ex_, s, tid, nm: IfaceV('dyn:pubkey', Opaque(nm)) if tid is not None and ex_.ir.kind(tid) == 'interface' else NotImplemented))
                 paths = ex.run(name, [state, ex.mkslice(st, chains)], st); total += len(paths)
@@ -65,7 +75,7 @@ def ob_kmsigned(chk, ir):
                     if not (isinstance(err, IfaceV) and err.tid is None): continue
                     if not ex.feasible(p.pc, user != SV('')): continue
                     nacc += 1
-                    alts = []
+                    alts = []; ralts = []
                     for ci, certs in enumerate(leafs):
                         if len(certs) < 2: continue
                         leafcn = z3.String(f'*chain{ci}cert0.Subject.CommonName')
@@ -73,15 +83,32 @@ def ob_kmsigned(chk, ir):
                         trusted = z3.Or([issuer == FP(z3.String(f'key:*state.KeymasterPublicKeys[{i}]')) for i in range(nkeys)]) if nkeys else z3.BoolVal(False)
                         denied = z3.Or([leafk == z3.String(f'*state.Config.DenyTrustData.KeyDenyFPsshSha256[{i}]') for i in range(ndeny)]) if ndeny else z3.BoolVal(False)
                         alts.append(z3.And(user == leafcn, trusted, z3.Not(denied)))
+                        next_ = p.memo.get(f'len(*chain{ci}cert0.Extensions)')
+                        restricted = z3.Bool(f'chain{ci}.leaf.addressRestricted') if next_ is None else (z3.Bool(f'chain{ci}.leaf.addressRestricted') if next_ == 1 else z3.BoolVal(False))
+                        ralts.append(z3.And(user == leafcn, trusted, z3.Not(denied), z3.Not(restricted)))
                     good = z3.Or(alts) if alts else z3.BoolVal(False)
                     r_, m = ex.model(p.pc, z3.And(user != SV(''), z3.Not(good)))
                     if r_ == 'unknown': chk.obligation('keymaster-cert-branch', str(shape), 'inconclusive', 'solver unknown'); return
                     if r_ == 'sat':
                         if chk.violation('keymaster-cert-branch', 'getUsernameIfKeymasterSigned', 'a certificate identity is accepted although its issuer key is not a keymaster key / its key is deny-listed', model_dict(m)) == 'new': verdict = 'violated'
+                        continue
+                    # an address-restricted leaf is a credential only through the netblock test (getUsernameIfIPRestricted), never as an unrestricted user certificate
+                    rgood = z3.Or(ralts) if ralts else z3.BoolVal(False)
+                    r_, m = ex.model(p.pc, z3.And(user != SV(''), z3.Not(rgood)))
+                    if r_ == 'unknown': chk.obligation('keymaster-cert-branch', str(shape), 'inconclusive', 'solver unknown'); return
+                    if r_ == 'sat':
+                        confirmed = None; files = None
+                        if 'addr' not in done:
+                            done.add('addr')
+                            from symx import replay
+                            okr, txt = replay.go_test('cmd/keymasterd', 'zz_verif_c11_test.go', replay.GO_ROLE_CERT_AS_USER_CERT, 'TestVerifC11RoleCertOutsideNetblocks')
+                            chk.replays += 1; confirmed = (okr is False) if okr is not None else None
+                            files = {'zz_verif_c11_test.go': replay.GO_ROLE_CERT_AS_USER_CERT, 'native_output.txt': txt[-2500:]}
+                        if chk.violation('keymaster-cert-branch', 'getUsernameIfKeymasterSigned/address-restricted-leaf', 'an IP-restricted (address-delegation) certificate is accepted as an unrestricted keymaster user certificate: it authenticates from outside its netblocks wherever keymaster certificates are accepted', model_dict(m), replay_files=files, confirmed=confirmed) == 'new': verdict = 'violated'
                 chk.absorb(ex, paths)
     if nacc == 0: chk.obligation('keymaster-cert-branch', '-', 'inconclusive', 'vacuous'); return
     chk.witnesses += nacc
-    chk.obligation('keymaster-cert-branch: identity only from a chain issued by a published keymaster key whose leaf key is not deny-listed', 'chains 1..2 x 1..3, published keys 0..2, deny list 0..1', verdict, paths=total, t=time.time() - t)
+    chk.obligation('keymaster-cert-branch: identity only from a chain issued by a published keymaster key whose leaf key is not deny-listed and whose leaf carries no address restriction', 'chains 1..2 x 1..3, published keys 0..2, deny list 0..1', verdict, paths=total, t=time.time() - t)
 
 
 _IR = None
